@@ -147,7 +147,15 @@ func (it *Interp) Step(t []string, op string) string {
 		return strconv.Itoa(len(circuitbreaker.GetRules()))
 	case "entry":
 		id := vh.U(t[1])
-		e, b := api.Entry(t[2])
+		var opts []api.EntryOption
+		if len(t) > 3 {
+			// `#<n>` = WithBatchCount(n); the breaker must count the entry as one request whatever n is
+			if len(t) != 4 || !strings.HasPrefix(t[3], "#") {
+				return "bad-op"
+			}
+			opts = append(opts, api.WithBatchCount(uint32(vh.U(t[3][1:]))))
+		}
+		e, b := api.Entry(t[2], opts...)
 		if b != nil {
 			if b.BlockType() != base.BlockTypeCircuitBreaking {
 				return "block-other " + b.BlockType().String()
